@@ -664,6 +664,21 @@ class G:
         leaf = self.simple_int_dop(16, identical=True)
         leaf["dct"].pop("mask", None)
         cv = self.pick([0x01, 0x10, 0x7F])
+        if self.opts.get("emfield_restricted", True) and self.chance(45):
+            # end-marker DOP with a restricted internal domain (LINEAR with limits): an item that starts with a
+            # byte outside that domain is not an end marker (the probe's conversion error just means "no")
+            k = self.pick([1, 2, 5, 20])
+            hi = self.pick([50, 100, 200])
+            x = self.d(st.integers(0, hi))          # the end marker on the wire
+            tv = x + k                               # ... is the image of the TERMINATION-VALUE
+            tdop = {"k": "simple", "id": self.nid("dop"),
+                    "dct": {"t": "std", "bt": "A_UINT32", "bl": 8, "enc": None, "hl": None},
+                    "compu": {"c": "LINEAR", "n0": k, "n1": 1, "d": 1, "lo": 0, "hi": hi}, "pt": "A_UINT32"}
+            cands = [c for c in (tv, tv, tv, hi + 1, 0xFF, x + 1, x - 1, 0x01) if 0 <= c <= 0xFF and c != x]
+            cv = self.pick(cands)
+            self.features.add("emfield-restricted-marker")
+            if cv > hi:
+                self.features.add("emfield-item-outside-marker-domain")
         st_ = {"k": "struct", "id": self.nid("st"), "bs": None, "params": [
             {"pk": "const", "name": self.nid("cc"), "pos": 0, "bit": 0,
              "dct": {"t": "std", "bt": "A_UINT32", "bl": 8, "enc": None, "hl": None}, "v": cv},
@@ -702,6 +717,9 @@ class G:
             kinds += ["dlfield", "mux", "mux"]
             if tail:
                 kinds += ["eopf"]
+        focus = self.opts.get("focus")
+        if focus in kinds:
+            kinds = kinds + [focus] * (2 * len(kinds))      # a generator biased towards one kind of complex DOP
         k = self.pick(kinds)
         if k == "emfield":
             return self.emfield(tail and not must_static)
